@@ -87,7 +87,7 @@ DEFECT_PART = "DEFECT/PartitionSampler::new builds an empty bin"
 HARNESSES = [
     _uniform(2, 2, Q), _uniform(3, 4, T),
     _stakew(2, 2, Q), _stakew(3, 2, T), _stakew(3, 4, T),
-    _decay(2, 2, 2, T), _decay(3, 2, 2, T), _decay(2, 2, 3, T),
+    _decay(2, 2, 2, T), _decay(3, 2, 2, T), _decay(2, 2, 3, Q),
     _psample(2, 2, Q), _psample(3, 2, T), _psample(4, 2, T),
     _fa1new(2, 2, Q), _fa1new(3, 2, T), _fa1new(3, 3, T), _fa1new(3, 4, T),
     _fa1pnew(2, 3, Q), _fa1pnew(2, 2, T), _fa1pnew(3, 3, T),
